@@ -440,6 +440,26 @@ def check_three(inp):
     return None
 
 
+def check_mixture_array(inp):
+    """a mixture of shapes for an array of fractional volumes (a profile): every element is what the scalar call gives"""
+    m = gmf()
+    cz = lambda p: complex(p[0], p[1]) if p[1] != 0 else float(p[0])
+    e0, eps = cz(inp["e0"]), cz(inp["eps"])
+    fs_ = np.array(inp["fs"], dtype=float)
+    forms = [dict(inclusion_shape={"spheres": inp["w"], "random_needles": 1 - inp["w"]}),
+             dict(inclusion_shape=("spheres", "random_needles"), mixing_ratio=inp["w"])]
+    for kw in forms:
+        try:
+            got = np.asarray(m.polder_van_santen(fs_.copy(), e0=e0, eps=eps, **kw), dtype=complex)
+        except Exception:  # noqa   (arrays not accepted: a loud refusal)
+            continue
+        ref = np.array([complex(m.polder_van_santen(float(f), e0=e0, eps=eps, **kw)) for f in fs_])
+        if got.shape != ref.shape or max(rel(complex(a), complex(b)) for a, b in zip(got, ref)) > 1e-9:
+            return ("mixture:array", f"polder_van_santen({inp['fs']}, e0={e0}, eps={eps}, {kw}) = {got.tolist() if got.ndim else complex(got)} but the scalar calls give "
+                    f"{ref.tolist()}", str(got.tolist() if got.ndim else complex(got)), str(ref.tolist()))
+    return None
+
+
 def check_three_array(inp):
     """the three-component solvers on an array of fractions (a layered profile, in any order): every element is what the scalar call gives"""
     m = gmf()
@@ -452,14 +472,27 @@ def check_three_array(inp):
         call = lambda f1, f2: m.polder_van_santen_three_spherical_components(f1, f2, e0, e1, e2)
     else:
         call = lambda f1, f2: m.polder_van_santen_three_components(f1, f2, e0, e1, e2, A, other)
+    f2s = z
+    if inp.get("broadcast"):
+        # one component the same in every layer (a number), the other an array: a brine fraction through a profile of porosities
+        f2s = np.full_like(fs_, 0.03)
     try:
-        got = np.asarray(call(fs_.copy(), z.copy()), dtype=complex).ravel()
+        got = np.asarray(call(fs_.copy(), 0.03 if inp.get("broadcast") else z.copy()), dtype=complex).ravel()
     except Exception:  # noqa   (arrays not accepted: a loud refusal)
         return None
-    ref = np.array([complex(call(float(f), 0.0)) for f in fs_])
+    ref = np.array([complex(call(float(f), float(g_))) for f, g_ in zip(fs_, f2s)])
+    if inp.get("broadcast"):
+        try:
+            got2 = np.asarray(call(0.03, fs_.copy()), dtype=complex).ravel()
+        except Exception:  # noqa
+            got2 = None
+        ref2 = np.array([complex(call(0.03, float(f))) for f in fs_])
+        if got2 is not None and (got2.shape != ref2.shape or max(rel(complex(a), complex(b)) for a, b in zip(got2, ref2)) > RT3):
+            return ("three_components:array", f"{inp['solver']} three-component solver with f1 = 0.03 and f2 = {inp['fs']}: {got2.tolist()} but the scalar calls give "
+                    f"{ref2.tolist()}", str(got2.tolist()), str(ref2.tolist()))
     if got.shape != ref.shape or max(rel(complex(a), complex(b)) for a, b in zip(got, ref)) > RT3:
         k = int(np.argmax([rel(complex(a), complex(b)) for a, b in zip(got, ref)])) if got.shape == ref.shape else 0
-        return ("three_components:array", f"{inp['solver']} three-component solver on the fractions {inp['fs']} (f2 = 0, eps0={e0}, eps1={e1}): element {k} is "
+        return ("three_components:array", f"{inp['solver']} three-component solver on the fractions {inp['fs']} (f2 = {0.03 if inp.get('broadcast') else 0}, eps0={e0}, eps1={e1}): element {k} is "
                 f"{got[k] if got.shape == ref.shape else got.shape} but the scalar call gives {ref[k]}", str(got.tolist()), str(ref.tolist()))
     return None
 
@@ -510,6 +543,17 @@ def oracle(ctx, hints, effort):
             r = check_three_array(inp)
             if r is not None and r[0] not in findings:
                 findings[r[0]] = Finding(r[0], r[1], inp, r[2], r[3])
+            inp = dict(inp, broadcast=True, fs=[0.05, 0.6, 0.1, 0.3])
+            evals += 1
+            r = check_three_array(inp)
+            if r is not None and r[0] not in findings:
+                findings[r[0]] = Finding(r[0], r[1], inp, r[2], r[3])
+    for media in (([1.0, 0.0], [3.18, 0.001]), ([3.17, 0.002], [60.0, 35.0])):
+        inp = {"kind": "mixture-array", "e0": media[0], "eps": media[1], "w": round(float(rng.uniform(0.2, 0.8)), 2), "fs": [0.05, 0.4, 0.2, 0.7]}
+        evals += 1
+        r = check_mixture_array(inp)
+        if r is not None and r[0] not in findings:
+            findings[r[0]] = Finding(r[0], r[1], inp, r[2], r[3])
     for inp in three:
         evals += 1
         r = check_three(inp)
@@ -527,6 +571,9 @@ def replay(inp, rp=None):
     cz = lambda p: complex(p[0], p[1])
     if k == "three":
         r = check_three(inp)
+        return Finding(r[0], r[1], inp, r[2], r[3]) if r else None
+    if k == "mixture-array":
+        r = check_mixture_array(inp)
         return Finding(r[0], r[1], inp, r[2], r[3]) if r else None
     if k == "three-array":
         r = check_three_array(inp)
